@@ -579,7 +579,7 @@ func (s *Shard) WritePointsWithContext(ctx context.Context, points []models.Poin
 	// engine reported.  otherwise, use the length of our points slice.
 	if npoints, ok := ctx.Value(StatPointsWritten).(*int64); ok {
 		// use engine counted points
-		atomic.AddInt64(&s.stats.WritePointsOK, *npoints)
+		atomic.AddInt64(&s.stats.WritePointsOK, atomic.LoadInt64(npoints))
 	} else {
 		// fallback to assuming that len(points) is accurate
 		atomic.AddInt64(&s.stats.WritePointsOK, int64(len(points)))
@@ -587,7 +587,7 @@ func (s *Shard) WritePointsWithContext(ctx context.Context, points []models.Poin
 
 	// Increment the number of values stored if available
 	if nvalues, ok := ctx.Value(StatValuesWritten).(*int64); ok {
-		atomic.AddInt64(&s.stats.WriteValuesOK, *nvalues)
+		atomic.AddInt64(&s.stats.WriteValuesOK, atomic.LoadInt64(nvalues))
 	}
 
 	return writeError
